@@ -54,9 +54,9 @@ def builtin_norm_inf(x):
     return np.linalg.norm(x, np.inf)
 
 
-def builtin_dot_product(a, b):
+def builtin_dot_product(x, y):
     import numpy as np
-    return np.vdot(a, b)
+    return np.vdot(x, y)
 
 
 def builtin_elementwise_abs(x):
